@@ -353,8 +353,23 @@ def rule_R3(toks, fired):
                 pe = match_close(toks, p)
                 inn = next_code(toks, pe + 1)
                 bo = _loop_body_open(toks, i)
-                # header must end with .enumerate()
+                # header must end with .enumerate()   [optionally followed by .take(E): ITER.enumerate().take(E) == ITER.take(E).enumerate()]
                 e3 = prev_code(toks, bo - 1)
+                take_tail = []
+                if toks[e3].text == ")":
+                    k = e3
+                    depth = 0
+                    while k >= 0:
+                        if toks[k].kind == "punct" and toks[k].text in CLOSE: depth += 1
+                        if toks[k].kind == "punct" and toks[k].text in OPEN:
+                            depth -= 1
+                            if depth == 0: break
+                        k -= 1
+                    m_ = prev_code(toks, k - 1)
+                    d_ = prev_code(toks, m_ - 1)
+                    if toks[m_].text == "take" and toks[d_].text == ".":
+                        take_tail = toks[d_:e3 + 1]
+                        e3 = prev_code(toks, d_ - 1)
                 e2 = prev_code(toks, e3 - 1)
                 e1 = prev_code(toks, e2 - 1)
                 e0 = prev_code(toks, e1 - 1)
@@ -374,7 +389,7 @@ def rule_R3(toks, fired):
                     ctr = I + "_ctr"
                     pre = synth("let mut %s = 0usize; " % ctr)
                     new = (pre + [toks[i]] + [S(" ", "ws")] + X + [S(" ", "ws")]
-                           + toks[inn:e0] + [S(" ", "ws")] + [toks[bo]]
+                           + toks[inn:e0] + take_tail + [S(" ", "ws")] + [toks[bo]]
                            + synth(" let %s = %s; %s += 1;" % (I, ctr, ctr))
                            + toks[bo + 1:bc + 1])
                     toks = toks[:i] + new + toks[bc + 1:]
@@ -549,6 +564,216 @@ def rule_R13(toks, fired):
     return toks
 
 
+def _strip_parens(ts):
+    ts = [t for t in ts]
+    while True:
+        c = [i for i, t in enumerate(ts) if t.kind not in ("ws", "comment")]
+        if len(c) >= 2 and ts[c[0]].text == "(" and match_close(ts, c[0]) == c[-1]:
+            ts = ts[c[0] + 1:c[-1]]
+        else:
+            return ts
+
+
+def _r14_flatten(pat, expr):
+    """pair up the leaves of a (nested) zip expression with the leaves of the tuple pattern"""
+    pat = _strip_ws(pat)
+    expr = _strip_ws(expr)
+    ci = [i for i, t in enumerate(expr) if t.kind not in ("ws", "comment")]
+    first = expr[ci[0]]
+
+    def tuple_parts(p):
+        p = _strip_ws(p)
+        c = [i for i, t in enumerate(p) if t.kind not in ("ws", "comment")]
+        if not (p[c[0]].text == "(" and match_close(p, c[0]) == c[-1]):
+            raise ExtractError("R14: pattern is not a tuple where the iterator is a zip")
+        return [p[a:b] for (a, b) in split_top_commas(p, c[0] + 1, c[-1])]
+
+    # zip(E1, E2)
+    if first.kind == "ident" and first.text == "zip" and len(ci) > 1 and expr[ci[1]].text == "(" and match_close(expr, ci[1]) == ci[-1]:
+        args = [expr[a:b] for (a, b) in split_top_commas(expr, ci[1] + 1, ci[-1])]
+        pp = tuple_parts(pat)
+        if len(args) != 2 or len(pp) != 2:
+            raise ExtractError("R14: zip arity")
+        return _r14_flatten(pp[0], args[0]) + _r14_flatten(pp[1], args[1])
+    # izip!(E1, .., Ek)
+    if first.kind == "ident" and first.text == "izip" and expr[ci[1]].text == "!" and expr[ci[2]].text == "(" and match_close(expr, ci[2]) == ci[-1]:
+        args = [expr[a:b] for (a, b) in split_top_commas(expr, ci[2] + 1, ci[-1])]
+        pp = tuple_parts(pat)
+        if len(args) != len(pp):
+            raise ExtractError("R14: izip arity")
+        out = []
+        for p_, a_ in zip(pp, args):
+            out += _r14_flatten(p_, a_)
+        return out
+    # E1.zip(E2)  (top-level trailing method call)
+    if expr[ci[-1]].text == ")":
+        k = ci[-1]
+        depth = 0
+        while k >= 0:
+            if expr[k].kind == "punct" and expr[k].text in CLOSE: depth += 1
+            if expr[k].kind == "punct" and expr[k].text in OPEN:
+                depth -= 1
+                if depth == 0: break
+            k -= 1
+        m_ = prev_code(expr, k - 1)
+        d_ = prev_code(expr, m_ - 1)
+        if m_ >= 0 and expr[m_].text == "zip" and d_ >= 0 and expr[d_].text == ".":
+            pp = tuple_parts(pat)
+            inner = [expr[a:b] for (a, b) in split_top_commas(expr, k + 1, ci[-1])]
+            if len(pp) != 2 or len(inner) != 1:
+                raise ExtractError("R14: .zip arity")
+            return _r14_flatten(pp[0], expr[:d_]) + _r14_flatten(pp[1], inner[0])
+    return [(pat, expr)]
+
+
+def _strip_ws(ts):
+    ts = list(ts)
+    while ts and ts[0].kind in ("ws", "comment"): ts = ts[1:]
+    while ts and ts[-1].kind in ("ws", "comment"): ts = ts[:-1]
+    return ts
+
+
+def _r14_leaf(expr):
+    """normalise an iterator source to (base expression tokens, mutable?, take-limit tokens or None)"""
+    e = _strip_ws(_strip_parens(_strip_ws(expr)))
+    mutable = None
+    limit = None
+    changed = True
+    while changed:
+        changed = False
+        c = [i for i, t in enumerate(e) if t.kind not in ("ws", "comment")]
+        # trailing .iter() / .iter_mut() / .into_iter() / .take(N)
+        if len(c) >= 4 and e[c[-1]].text == ")":
+            k = c[-1]
+            depth = 0
+            while k >= 0:
+                if e[k].kind == "punct" and e[k].text in CLOSE: depth += 1
+                if e[k].kind == "punct" and e[k].text in OPEN:
+                    depth -= 1
+                    if depth == 0: break
+                k -= 1
+            m_ = prev_code(e, k - 1)
+            d_ = prev_code(e, m_ - 1)
+            if m_ >= 0 and d_ >= 0 and e[d_].text == "." and e[m_].text in ("iter", "iter_mut", "into_iter", "take"):
+                if e[m_].text == "iter_mut": mutable = True
+                if e[m_].text == "iter": mutable = False
+                if e[m_].text == "take":
+                    if limit is not None: raise ExtractError("R14: two take() adaptors")
+                    limit = e[k + 1:c[-1]]
+                e = _strip_ws(_strip_parens(_strip_ws(e[:d_])))
+                changed = True
+                continue
+        # leading & / &mut / &mut *
+        if c and e[c[0]].text == "&":
+            n1 = next_code(e, c[0] + 1)
+            if e[n1].kind == "ident" and e[n1].text == "mut":
+                mutable = True
+                n2 = next_code(e, n1 + 1)
+                if e[n2].text == "*": n2 = next_code(e, n2 + 1)
+                e = _strip_ws(_strip_parens(_strip_ws(e[n2:])))
+            else:
+                if mutable is None: mutable = False
+                e = _strip_ws(_strip_parens(_strip_ws(e[n1:])))
+            changed = True
+    return e, mutable, limit
+
+
+def rule_R14(toks, fired, which=None):
+    """index-loop form of slice zips:  for (P1,..,Pk) in zip/izip!/.zip(S1,..,Sk) {B}   ->
+         { let mut n = S1.len(); if S2.len() < n { n = S2.len(); } ..; for r14_i in 0..n { let P1 = &[mut] S1[r14_i]; ..; B } }
+    (the definition of zipping slice iterators: pairs in order, stopping at the shortest).  `which` = {ordinal: "mi.."}
+    gives the mutability of leaves that syntax does not show (m = yields &mut, i = yields &)."""
+    which = which or {}
+    i = 0
+    ordinal = 0
+    nrew = 0
+    while i < len(toks):
+        t = toks[i]
+        if t.kind == "ident" and t.text in ("for", "while", "loop") and not (t.text == "for" and toks[next_code(toks, i + 1)].text == "<"):
+            ordinal += 1
+        if t.kind == "ident" and t.text == "for" and not t.syn and ("*" in which or ordinal in which):
+            j = i + 1
+            while not (toks[j].kind == "ident" and toks[j].text == "in"):
+                if toks[j].kind == "punct" and toks[j].text in ("(", "["):
+                    j = match_close(toks, j)
+                j += 1
+            bo = _loop_body_open(toks, i)
+            pat = toks[i + 1:j]
+            expr = toks[j + 1:bo]
+            leaves = _r14_flatten(pat, expr)
+            if len(leaves) == 1 and any(x.kind == "punct" and x.text in ("..", "..=") for x in leaves[0][1]) and ordinal not in which:
+                i += 1     # a plain range loop: nothing to rewrite
+                continue
+            hints = which.get(ordinal, which.get("*", ""))
+            nrew += 1
+            iv, nv = f"r14_i{nrew}", f"r14_n{nrew}"
+            pre, lets = [], []
+            for li, (p_, e_) in enumerate(leaves):
+                base, mutable, limit = _r14_leaf(e_)
+                if mutable is None:
+                    if li < len(hints) and hints[li] in "mi":
+                        mutable = hints[li] == "m"
+                    else:
+                        raise ExtractError(f"R14: mutability of zip leaf {li} of loop {ordinal} is not visible; give it in the rule argument")
+                bt = untok(base)
+                lens = [f"{bt}.len()"] + ([untok(limit)] if limit is not None else [])
+                for ln in lens:
+                    if not pre:
+                        pre.append(f"let mut {nv}: usize = {ln};")
+                    else:
+                        pre.append(f"if {ln} < {nv} {{ {nv} = {ln}; }}")
+                p_ = _strip_ws(p_)
+                pc = [x for x in p_ if x.kind not in ("ws", "comment")]
+                if len(pc) == 2 and pc[0].text == "&" and pc[1].kind == "ident":
+                    lets.append(f"let {pc[1].text} = {bt}[{iv}];")
+                elif len(pc) == 1 and pc[0].kind == "ident":
+                    lets.append(f"let {pc[0].text} = &{'mut ' if mutable else ''}{bt}[{iv}];")
+                else:
+                    raise ExtractError("R14: unsupported leaf pattern " + untok(p_))
+            bc = match_close(toks, bo)
+            new = (synth("{ " + " ".join(pre) + f" for {iv} in 0..{nv} ") + [toks[bo]] + synth(" " + " ".join(lets))
+                   + toks[bo + 1:bc + 1] + synth(" }"))
+            toks = toks[:i] + new + toks[bc + 1:]
+            fired["R14"] = fired.get("R14", 0) + 1
+            i += len(synth("{ " + " ".join(pre) + f" for {iv} in 0..{nv} "))
+            continue
+        i += 1
+    return toks
+
+
+def rule_R15(toks, fired, bases):
+    """X[A..B]  ->  X.as_mut_slice()[A..B]   for the listed Vec-typed bases X that are range-indexed mutably.
+    (Vec's IndexMut<Range> has no usable Verus specification; the slice one has.  Same place: deref of the Vec.)"""
+    for base in bases:
+        pat = sig(lex(base))
+        i = 0
+        while i < len(toks):
+            ci = []
+            k = i
+            while k < len(toks) and len(ci) < len(pat) + 1:
+                if toks[k].kind not in ("ws", "comment"):
+                    ci.append(k)
+                k += 1
+            if len(ci) == len(pat) + 1 and [toks[c].text for c in ci[:-1]] == pat and toks[ci[-1]].text == "[" \
+                    and not toks[ci[0]].syn and toks[prev_code(toks, ci[0] - 1)].text not in (".", "::"):
+                close = match_close(toks, ci[-1])
+                inner = toks[ci[-1] + 1:close]
+                depth = 0
+                has_range = False
+                for x in inner:
+                    if x.kind == "punct" and x.text in OPEN: depth += 1
+                    if x.kind == "punct" and x.text in CLOSE: depth -= 1
+                    if x.kind == "punct" and x.text in ("..", "..=") and depth == 0: has_range = True
+                if has_range:
+                    ins = synth(".as_mut_slice()")
+                    toks = toks[:ci[-1]] + ins + toks[ci[-1]:]
+                    fired["R15"] = fired.get("R15", 0) + 1
+                    i = ci[-1] + len(ins) + 1
+                    continue
+            i += 1
+    return toks
+
+
 def _contains_continue(toks, lo, hi):
     """is there a `continue` in lo..hi that belongs to this loop (not to a nested loop / closure)?"""
     i = lo
@@ -665,9 +890,26 @@ def apply_rules(toks, rules, fired):
     for r in RULE_ORDER:
         if r in rules:
             toks = RULES[r](toks, fired)
+        if r == "R3":
+            # R14 runs after R3 (enumerate counters) and before R5 (ref patterns are consumed by R14 itself)
+            for z in rules:
+                if z.startswith("zipidx"):
+                    which = {}
+                    arg = z[len("zipidx"):].lstrip(":")
+                    if arg in ("", "*"):
+                        which["*"] = ""
+                    else:
+                        for part in arg.split(";"):
+                            k, _, v = part.partition("=")
+                            which[int(k) if k != "*" else "*"] = v
+                    toks = rule_R14(toks, fired, which)
     for r in rules:
         if r.startswith("drop:"):
             toks = rule_drop_stmt(toks, fired, r[5:])
+        elif r.startswith("zipidx"):
+            pass
+        elif r.startswith("R15:"):
+            toks = rule_R15(toks, fired, [b for b in r[4:].split("|") if b])
         elif r.startswith("tparam:"):
             a, b = r[7:].split(">")
             toks = rule_R1(toks, fired, a, b)
